@@ -263,7 +263,7 @@ func solveOne(ob *Obligation, cfg SolverCfg) {
 	var outputs []string
 	if ob.Cover {
 		// vacuity guard: the assumptions must not be refutable; one quick attempt
-		st, out, secs := runSolver(solvers[0], fname, 3*time.Second)
+		st, out, secs := runSolver(solvers[0], fname, 1500*time.Millisecond)
 		ob.Seconds = secs
 		ob.Output = fmt.Sprintf("[%s: %s in %.2fs] %s", solvers[0].name, st, secs, firstLines(out, 3))
 		if st != "unsat" && st != "sat" {
